@@ -6,6 +6,7 @@
   depth or string length.
 -/
 import Gedcom.Lemmas.RoundTrip
+import Gedcom.Generated.DecoderFacts
 namespace Gedcom.C01
 open Gedcom Gedcom.Dec
 
@@ -95,5 +96,16 @@ example : Legal sample := by
     isRoleTag, isRecordTag, isWord, tFAM, tHUSB, tWIFE, tCHIL, tINDI, AT, LF, CR,
     trimSpace, trimLeft, trimLeftRev, trimL, prefLen, spaceSeqs, spaceSeqsRev,
     List.isPrefixOf, List.find?]
+
+/-- **Obligation on the regenerated decoder facts.** What the byte-level model hard-codes about
+    decoder.go and the library calls it makes is what the current source says: the code points
+    `strings.TrimSpace` strips (probed on every valid code point on every run) are exactly the
+    model's table, invalid or truncated UTF-8 is kept, `trimNodeValue` goes through
+    `strings.TrimSpace`, `readLine` ends a line at LF and at CR and nowhere else, and the byte
+    order mark is EF BB BF. -/
+theorem decoder_source_facts :
+    Generated.goSpaceSeqs = spaceSeqs ∧ Generated.goTrimKeepsInvalid = true ∧
+    Generated.trimUsesTrimSpace = true ∧ Generated.readLineBreaks = [LF, CR] ∧
+    Generated.bomBytes = BOM := by decide
 
 end Gedcom.C01
